@@ -426,6 +426,28 @@ fn run(ctx: &mut Ctx) {
                 }
             }
         }
+        // PWB: the same packet re-chunked so that the final chunk is longer than the others (legal)
+        {
+            let dec0 = alpha_g_detector::padwing::Chunk::try_from(&base[nw].1[..]).unwrap();
+            let payload = dec0.payload().to_vec();
+            for reg in [100usize, 500, 1000, payload.len() / 3] {
+                if reg == 0 || payload.len() < 2 * reg + 1 {
+                    continue;
+                }
+                let full = payload.len() / reg - 1;
+                if full < 1 {
+                    continue;
+                }
+                let mut b: Banks = base[..nw].to_vec();
+                for k in 0..=full {
+                    let (s, e, last) = if k == full { (k * reg, payload.len(), true) } else { (k * reg, (k + 1) * reg, false) };
+                    let c = crate::enc::Chunk { device_id: dec0.board_id().device_id(), packet_sequence: k as u32, channel_sequence: k as u16, channel_id: base[nw].1[10], flags: last as u8, chunk_id: k as u16, payload: payload[s..e].to_vec() };
+                    b.push((base[nw].0.clone(), c.encode()));
+                }
+                b.push(base[base.len() - 1].clone());
+                exercise(ctx, u32::MAX, &b, "PWB packet chunked with a longer final chunk");
+            }
+        }
         // PWB: one payload byte changed, chunk CRCs valid
         let pi = nw;
         let dec = alpha_g_detector::padwing::Chunk::try_from(&base[pi].1[..]).unwrap();
